@@ -57,7 +57,7 @@ def run_tlc(ctx, tag, module, cfg_text, *, files=None, workers=1, simulate=None,
         cmd += ["-seed", str(seed if seed is not None else ctx.seed)]
     cmd.append(module + ".tla")
     env = dict(os.environ)
-    jto = env.get("JAVA_TOOL_OPTIONS", "") + " -Xss64m"
+    jto = env.get("JAVA_TOOL_OPTIONS", "") + " -Xss64m -Xmx4g"
     if dfs:
         jto += " -Dtlc2.tool.queue.IStateQueue=StateDeque"
     env["JAVA_TOOL_OPTIONS"] = jto.strip()
@@ -942,6 +942,9 @@ def run(ctx):
         ctx.violations[:] = keep + [v for v in ctx.violations if v not in keep][:max(0, 20 - len(keep))]
 
     # ------------------------------------------------------------ evidence
+    import resource
+    ctx.timing["python_max_rss_mb"] = resource.getrusage(resource.RUSAGE_SELF).ru_maxrss // 1024
+    ctx.timing["children_max_rss_mb"] = resource.getrusage(resource.RUSAGE_CHILDREN).ru_maxrss // 1024
     ctx.timing["driver"] = round(st["t_driver"], 1)
     ctx.timing["trace_validation"] = round(st["t_tv"], 1)
     ctx.cov["distinct_nontrivial"] = st["nontrivial"]
